@@ -705,3 +705,14 @@ package locate
 //@   may-panic
 //@   opaque-callee Value handleAsyncResponse Go Executor Err Cause
 //@   at call(handleAsyncResponse) assert counted: state.vars.sendTimes == old(state.vars.sendTimes) + 1
+
+// Turning PD's answer into regions: every region PD reported is handed on, in order (so that a chain reported by PD stays a
+// chain). Known finding F19: when the caller asks for regions WITH a leader, a region PD reports without one is silently
+// dropped from the middle of the answer, and the multi-region lookups built on it (LocateKeyRange, BatchLocateKeyRanges with
+// the need-leader option) return locations with a gap.
+//@ func (c *RegionCache) handleRegionInfos
+//@   prop C09
+//@   may-panic
+//@   opaque-callee newRegion GetId Key
+//@   loop 1 invariant all: -1 <= rangeindex && rangeindex < len(regionsInfo) && (!needLeader ==> len(regions) == rangeindex + 1)
+//@   ensures all: result1 == nil && result0 != nil ==> len(result0) == len(regionsInfo)
